@@ -93,6 +93,8 @@ func TestConcurrentBoundsAndQuiescentSum(t *testing.T) {
 			scripts[g] = drawScript(rt, g)
 		}
 		w := newWorld(rt, cfg)
+		slowLimiter := rapid.SampledFrom([]int{0, 0, 3, 20}).Draw(rt, "limiterYields")
+		w.lim.yields.Store(int32(slowLimiter))
 		defer w.rm.Close()
 
 		scopes := []string{sSystem, sTransient, sPeer(0), sPeer(1), sPeer(2), sProto(0), sProto(1), sSvc(0), sSvc(1)}
